@@ -26,6 +26,7 @@ Clauses(e) ==
         LET es == e["in"].entries
             c == CheckZip(es, Prefix) IN
         (IF e.obs.valid = c.valid /\ e.obs.invalid = c.invalid THEN {} ELSE {"c12:checkzip"})
+        \cup (IF e.obs.sizeerr = c.sizeerr THEN {} ELSE {"c12:size-limit"})
         \cup (IF e.obs.unzipok = UnzipOK(es, Prefix) THEN {} ELSE {"c12:unzip-verdict"})
         \cup (IF e.obs.unzipok /\ UnzipOK(es, Prefix) /\ SeqSet(e.obs.tree) # UnzipTree(es, Prefix) THEN {"c12:tree"} ELSE {})
         \cup (IF e.obs.noescape THEN {} ELSE {"c12:escape"})
@@ -33,7 +34,7 @@ ExpOf(e) ==
     IF e.k = "files" THEN LET fs == e["in"].files
                               g == Ge124(fs)
                               c == Classify(fs, g) IN [valid |-> c.valid, omitted |-> c.omitted, invalid |-> c.invalid, createok |-> c.invalid = <<>>, ge124 |-> g]
-    ELSE LET es == e["in"].entries IN [valid |-> CheckZip(es, Prefix).valid, invalid |-> CheckZip(es, Prefix).invalid, unzipok |-> UnzipOK(es, Prefix), tree |-> UnzipTree(es, Prefix)]
+    ELSE LET es == e["in"].entries IN [valid |-> CheckZip(es, Prefix).valid, invalid |-> CheckZip(es, Prefix).invalid, sizeerr |-> CheckZip(es, Prefix).sizeerr, unzipok |-> UnzipOK(es, Prefix), tree |-> UnzipTree(es, Prefix)]
 Init == l = 1 /\ bad = {}
 Next == /\ l <= Len(Trace)
         /\ l' = l + 1
